@@ -1,6 +1,6 @@
 CONSTANTS
   Params <- DefaultParams
-  MaxN = 130
+  MaxN = 150
   ExportNs <- QuickNs
   DevNs <- QuickDevNs
   ExportOn = TRUE
